@@ -644,7 +644,9 @@ def slice_scaling(ctx):
         ok = len(es) == 1
         if ok:
             try:
-                ok = linear(es[0].body, {name: (1, 0)}) == (S, O)
+                t0 = es[0].test
+                ok = is_name(t0.left, name) and isinstance(t0.comparators[0], ast.Constant) and t0.comparators[0].value == 0
+                ok = ok and linear(es[0].body, {name: (1, 0)}) == (S, O)
                 neg = es[0].orelse
                 ok = ok and isinstance(neg, ast.BinOp) and isinstance(neg.op, ast.Add) and linear(neg.left, {name: (1, 0)}) == (S, 0) \
                     and matches(neg.right, 'len(%s)' % opsv)
